@@ -120,6 +120,21 @@ def installed_slots(P, file):
     return D, out
 
 
+def _infeasible(F, nid):
+    """No feasible path executes node nid (constant propagation prunes the branch it sits in)."""
+    class _Seen(cfg.Typestate):
+        init = 0
+        hit = False
+
+        def event(self, F2, n, st, ctx):
+            if n == nid:
+                self.hit = True
+            return st
+    ts = _Seen()
+    cfg.simulate(F, ts)
+    return not ts.hit
+
+
 def rule_R1_R5(P, rep):
     accv = access_values(P)
     for file in POOL_FILES:
@@ -163,6 +178,8 @@ def rule_R1_R5(P, rep):
                 n_sites += 1
                 nd = F.nodes[nid]
                 helds = ts.at.get(nid, set())
+                if not helds and nid not in ts.at and nd.get("inl") is None and _infeasible(F, nid):
+                    continue            # a call no feasible path reaches (e.g. a helper specialised by a constant argument)
                 locked = bool(helds) and all(any(_is_pool_mutex(F, k) for k in h) for h in helds)
                 if F.name in priv_only:
                     rep.ob("R1", "%s:%s calls %s (PRIV-only function, no lock required)" % (file, F.name, nd["fn"]),
